@@ -261,6 +261,25 @@ pub fn dispatch(f: &[&str]) -> String {
                 Err(_) => "ERR".to_string(),
             }
         }
+        // ---- C06: the stepping evaluator
+        "step" => {
+            // step <mode> <rich prog> <rich env> [limit]: compiler::clvm::run on rich values
+            let _g = chialisp::compiler::clvm::NewStyleIntConversion::new(f[1] == "1");
+            let p = crate::rich::parse(f[2]).unwrap();
+            let e = crate::rich::parse(f[3]).unwrap();
+            let limit: usize = if f.len() > 4 { f[4].parse().unwrap() } else { 20000 };
+            let mut a = Allocator::new();
+            match chialisp::compiler::clvm::run(&mut a, rc_runner(), chialisp::compiler::prims::prim_map(), p, e, None, Some(limit)) {
+                Ok(v) => match chialisp::compiler::clvm::convert_to_clvm_rs(&mut a, v) {
+                    Ok(n) => format!("OK {}", val::print(&a, n)),
+                    Err(_) => "ERR convert".to_string(),
+                },
+                Err(e) => {
+                    let t = runfailure_text(&e);
+                    if t.contains("timeout") { "LIMIT".to_string() } else if t.starts_with("RunExn") { "RAISE".to_string() } else { format!("FAIL {}", t) }
+                }
+            }
+        }
         other => format!("BADOP {}", other),
     }
 }
